@@ -1,7 +1,15 @@
 (* C04 -- Unknown error types pass through a process losslessly.
-   Statements only; proofs in Proofs/CodecFacts.v. *)
+   Statements only; proofs in Proofs/CodecFacts.v, HopIdem.v, Confluence.v.
+   C04_confluence (Proofs/Confluence.v): for ANY intermediary p -- whatever subset of the
+   types it knows, closed or not -- and any wire message, a knowing receiver decodes what
+   p forwards to the same error (text, marks, Is, encoding, safe details, every accessor,
+   every rendering: everything that depends on the erasure) as it decodes the original
+   message; also through any chain of intermediaries.  The single side condition
+   ([tp_ok] / [tp_wf]; automatic for every message produced by encoding an error that
+   contains no opaque node) concerns a payload that is itself an error (a protobuf
+   message implementing error), which any process returns as that error: witness. *)
 From Errv Require Import Base.Str Redact.Markers Model.Err Model.Sem Model.Details Model.Marks Model.Codec
-     Proofs.CodecFacts Proofs.EraseDef Proofs.EraseFacts Proofs.HopIdem.
+     Proofs.CodecFacts Proofs.EraseDef Proofs.EraseFacts Proofs.HopIdem Proofs.Confluence.
 
 (* a process that knows none of the types re-encodes exactly the message it
    received (at every node; the error-typed test payload is the one proto
@@ -70,6 +78,28 @@ Print Assumptions C04_text_refuted_grpc.
    passes through it unchanged on the wire *)
 Definition C04_ex : err :=
   Wrap 101%positive (WHint (lit "h")) (Wrap 100%positive (WPrefix (lit "p")) (Leaf 99%positive (LErrString (lit "x")))).
+(* any intermediary, any message: the knowing receiver reconstructs the same error *)
+Theorem C04_confluence : forall p x, tp_ok p all_knowing x = true -> forall n m k,
+  erase (fst (decode all_knowing (encode (fst (decode p x n))) m)) = erase (fst (decode all_knowing x k)).
+Proof. exact confluence. Qed.
+Print Assumptions C04_confluence.
+
+(* for errors built in the origin process (no opaque node): any chain of intermediaries *)
+Theorem C04_confluence_chain : forall ps e n m k,
+  native e = true ->
+  erase (fst (hop all_knowing (fst (transfer ps e n)) m)) = erase (fst (hop all_knowing e k)).
+Proof. exact confluence_native_transfer. Qed.
+Print Assumptions C04_confluence_chain.
+
+Theorem C04_confluence_condition_needed :
+  proc_closed no_errorString /\
+  tp_ok no_errorString all_knowing tp_bad_msg = false /\
+  erase (fst (decode all_knowing (encode (fst (decode no_errorString tp_bad_msg 100%positive))) 200%positive))
+    = Leaf 1%positive LTestError /\
+  erase (fst (decode all_knowing tp_bad_msg 300%positive)) = Leaf 1%positive (LErrString (lit "m")).
+Proof. exact confluence_needs_tp_ok. Qed.
+Print Assumptions C04_confluence_condition_needed.
+
 Example C04_example :
   knows_nothing unknowing /\
   no_error_payload (encode C04_ex) = true /\
